@@ -147,6 +147,9 @@ fn one_case(ctx: &mut Ctx, idx: usize, cfg: &VolCfg, rng: &mut Rng) {
             (vec!["td0".into(), "comment".into(), "notes".into()], notes_text(rng))
         } else if cfg.container == "imd" && (tie || rng.chance(60)) {
             (vec!["imd".into(), "comment".into()], notes_text(rng))
+        } else if cfg.container == "woz2" && rng.chance(30) {
+            // an INFO item that describes the boot sector; every accepted value must leave the volume what it is
+            (vec!["woz2".into(), "info".into(), "boot_sector_format".into()], format!("{:02x}", rng.below(4)))
         } else {
             let (p, v, class) = super::c09::candidate(&typ, &lv, rng);
             if class == "no-leaf" { continue; }
@@ -253,6 +256,104 @@ fn edit_op(container: &str, val: &str, stamp: &[u8]) -> String {
     if container == "td0" { format!("nt:{}:{}", hx(stamp), hx(val.as_bytes())) } else { format!("cm:{}", hx(val.as_bytes())) }
 }
 
+/// Directed scenarios: a **write-protected 2MG** (header flags bit 31, set through `put_metadata /2mg/header/flags`).
+/// Every modifying operation must be refused by the image layer **and leave the live volume as it was** — also what
+/// the file system holds only in memory (DOS VTOC buffer, ProDOS bitmap buffer): the free count, every file;
+/// `get_img()` / `to_bytes()` must still work (a dirty buffer that cannot be written back made it panic: finding
+/// `refused-write-keeps-buffer`) and the saved bytes must reload to the same volume; after the flag is cleared the same
+/// operation is accepted.
+fn wp_scenarios(ctx: &mut Ctx, base: usize) {
+    let cfgs: [(Fs, &'static str, DiskKind, &'static str); 5] = [
+        (Fs::Dos33, "2mg-do", names::A2_DOS33_KIND, "a2-525-16"),
+        (Fs::Prodos, "2mg-po", names::A2_800_KIND, "a2-35-800"),
+        (Fs::Prodos, "2mg-do", names::A2_DOS33_KIND, "a2-525-16"),
+        (Fs::Pascal, "2mg-do", names::A2_DOS33_KIND, "a2-525-16"),
+        (Fs::Cpm2, "2mg-do", names::A2_DOS33_KIND, "a2-525-16"),
+    ];
+    let mut idx = base;
+    for (fs, container, kind, kind_name) in cfgs.iter() {
+        for op in ["delete", "put", "rename", "lock", "mkdir"] {
+            if op == "mkdir" && *fs != Fs::Prodos { continue; }
+            if op == "lock" && *fs == Fs::Pascal { continue; }
+            let me = idx;
+            idx += 1;
+            if !ctx.out.wants(me) { continue; }
+            let cfg = VolCfg { fs: *fs, container, kind: *kind, kind_name, flat: false };
+            let order = &container[4..];
+            let sig = |what: &str| format!("c06img/2mg-{}/write-protected/{}-{}/{}", order, op, what, format!("{:?}", fs).to_lowercase());
+            let desc = format!("idx={} write-protected-2mg cfg={}/{}/{} op={}", me, format!("{:?}", fs).to_lowercase(), container, kind_name, op);
+            let out = &mut ctx.out;
+            let mut disk = match guarded(|| make_volume(&cfg)) { Ok(Ok(d)) => d, _ => { out.count("c06img:wp-skipped"); continue; } };
+            let (n0, n1, n2, n3) = match fs { Fs::Cpm2 | Fs::Cpm3 | Fs::Fat => ("KEEP.BIN", "VICTIM.BIN", "NEW.BIN", "OTHER.BIN"), Fs::Pascal => ("KEEP.DATA", "VICTIM.DATA", "NEW.DATA", "OTHER.DATA"), _ => ("KEEP", "VICTIM", "NEW", "OTHER") };
+            let d0: Vec<u8> = (0..3000).map(|i| (i % 251) as u8).collect();
+            let d1: Vec<u8> = (0..1500).map(|i| (i % 13) as u8).collect();
+            if !matches!(guarded(|| disk.bsave(n0, &d0, Some(0x2000), None).map_err(|e| e.to_string())), Ok(Ok(_)))
+                || !matches!(guarded(|| disk.bsave(n1, &d1, Some(0x2000), None).map_err(|e| e.to_string())), Ok(Ok(_))) { out.count("c06img:wp-skipped"); continue; }
+            let files = vec![n0.to_string(), n1.to_string()];
+            let snap0 = match guarded(|| snapshot(&mut disk, &files)) { Ok(Ok(s)) => s, _ => { out.count("c06img:wp-skipped"); continue; } };
+            let free0 = disk.stat().map(|s| s.free_blocks).unwrap_or(usize::MAX);
+            // what a reload of the volume shows before the operation (a reloaded 2MG may name its disk kind differently)
+            let reload0 = match guarded(|| { let b = disk.get_img().to_bytes(); a2kit::create_fs_from_bytestream(&b, Some("2mg")).map_err(|e| e.to_string()).and_then(|mut d2| snapshot(&mut d2, &files)) }) { Ok(Ok(s)) => s, _ => { out.count("c06img:wp-skipped"); continue; } };
+            let flags = |on: bool| format!("{}{}", if *kind == names::A2_DOS33_KIND { "FE0100" } else { "000000" }, if on { "80" } else { "00" });
+            let key: Vec<String> = ["2mg", "header", "flags", "_raw"].iter().map(|s| s.to_string()).collect();
+            let set = |d: &mut Box<dyn DiskFS>, on: bool| guarded(|| d.get_img().put_metadata(&key, &json::JsonValue::String(flags(on))).map_err(|e| e.to_string()));
+            if !matches!(set(&mut disk, true), Ok(Ok(()))) { out.count("c06img:wp-skipped"); continue; }
+            let act = |d: &mut Box<dyn DiskFS>| -> Result<(), String> {
+                match op {
+                    "delete" => d.delete(n1).map_err(|e| e.to_string()),
+                    "put" => d.bsave(n2, &d1, Some(0x2000), None).map(|_| ()).map_err(|e| e.to_string()),
+                    "rename" => d.rename(n1, n3).map_err(|e| e.to_string()),
+                    "lock" => d.lock(n1).map_err(|e| e.to_string()),
+                    _ => d.create("SUBDIR").map_err(|e| e.to_string()),
+                }
+            };
+            // 1. refused
+            match guarded(|| act(&mut disk)) {
+                Err(p) => { out.oracle(false, "protected-image-refuses", &sig(&format!("panics:{}", site(&p))), &format!("{} panic={}", desc, p)); continue; }
+                Ok(Ok(())) => { out.oracle(false, "protected-image-refuses", &sig("accepted"), &desc); continue; }
+                Ok(Err(_)) => out.oracle(true, "protected-image-refuses", "", ""),
+            }
+            // 2. nothing changed in memory either (the free count is read from the buffer)
+            let free1 = guarded(|| disk.stat().map(|s| s.free_blocks).unwrap_or(usize::MAX)).unwrap_or(usize::MAX);
+            out.oracle(free1 == free0, "refused-write-changes-nothing", &sig("changes-free-count"), &format!("{} free {} -> {}", desc, free0, free1));
+            // 3. the image can still be handed out and saved
+            let bytes = match guarded(|| disk.get_img().to_bytes()) {
+                Ok(b) => { out.oracle(true, "save-after-refused-write", "", ""); b }
+                Err(p) => { out.oracle(false, "save-after-refused-write", &sig("then-save-panics"), &format!("{} panic={}", desc, p)); out.case(desc.as_bytes(), true); continue; }
+            };
+            // 4. the live volume and the reloaded volume are the volume before the operation
+            match guarded(|| snapshot(&mut disk, &files)) {
+                Ok(Ok(s)) => {
+                    let diff = s.iter().zip(snap0.iter()).find(|(a, b)| a != b).map(|(a, b)| format!("{}: {} != {}", a.0, a.1, b.1));
+                    out.oracle(diff.is_none(), "refused-write-changes-nothing", &sig("changes-live-volume"), &format!("{} {}", desc, diff.unwrap_or_default()));
+                }
+                Ok(Err(e)) => out.oracle(false, "refused-write-changes-nothing", &sig("volume-unreadable"), &format!("{} {}", desc, e)),
+                Err(p) => out.oracle(false, "refused-write-changes-nothing", &sig(&format!("snapshot-panics:{}", site(&p))), &format!("{} panic={}", desc, p)),
+            }
+            match guarded(|| a2kit::create_fs_from_bytestream(&bytes, Some("2mg")).map_err(|e| e.to_string())) {
+                Ok(Ok(mut d2)) => match guarded(|| snapshot(&mut d2, &files)) {
+                    Ok(Ok(s)) => {
+                        let diff = s.iter().zip(reload0.iter()).find(|(a, b)| a != b).map(|(a, b)| format!("{}: {} != {}", a.0, a.1, b.1));
+                        out.oracle(diff.is_none(), "reload-after-refused-write", &sig("reload-differs"), &format!("{} {}", desc, diff.unwrap_or_default()));
+                    }
+                    _ => out.oracle(false, "reload-after-refused-write", &sig("reload-unreadable"), &desc),
+                },
+                _ => out.oracle(false, "reload-after-refused-write", &sig("not-recognised"), &desc),
+            }
+            // 5. with the flag cleared the operation works
+            if matches!(set(&mut disk, false), Ok(Ok(()))) {
+                match guarded(|| act(&mut disk)) {
+                    Ok(Ok(())) => out.oracle(true, "unprotected-image-accepts", "", ""),
+                    Ok(Err(e)) => out.oracle(false, "unprotected-image-accepts", &sig("refused-after-unprotect"), &format!("{} err={}", desc, e)),
+                    Err(p) => out.oracle(false, "unprotected-image-accepts", &sig(&format!("panics-after-unprotect:{}", site(&p))), &format!("{} panic={}", desc, p)),
+                }
+            }
+            out.count(&format!("c06img:wp-scenario:{}", op));
+            out.case(desc.as_bytes(), true);
+        }
+    }
+}
+
 pub fn run(ctx: &mut Ctx) {
     let mut rng = Rng::new(ctx.seed);
     let cfgs = cfgs(ctx.tier_thorough);
@@ -265,4 +366,5 @@ pub fn run(ctx: &mut Ctx) {
             if let Err(p) = guarded(|| one_case(ctx, idx, cfg, &mut r)) { ctx.out.oracle(false, "case-completes", &format!("c06img/case-panic:{}", site(&p)), &format!("idx={} panic={}", idx, p)); }
         }
     }
+    wp_scenarios(ctx, rounds * cfgs.len());
 }
